@@ -1975,7 +1975,10 @@ class ShortcutNode(ListNode):
             # it only grows at its end: base first, then the product. (Growing at its front made the
             # multiply walk one value backwards every time the list was rebuilt.)
             if len(self.nodes) == 1 and not self._full and direction == 1:
-                return True
+                # ... and it stays the multiply that was written: base times the ORIGINAL factor.
+                # (Taking any next value and working out a new factor made the text depend on which
+                # of its nodes had survived earlier rebuilds: '1.0 2m' could come back as '1.0 1m'.)
+                return self._is_product(self._entry_number(self.nodes[0]), node)
         return False
 
     @staticmethod
@@ -2173,6 +2176,34 @@ class ShortcutNode(ListNode):
             num_repeats = self._num_node
         return ListNode._join_entries(first_val, f"{num_repeats.format().strip()}{r}")
 
+    @staticmethod
+    def _entry_number(node):
+        """
+        The number an entry is written as (sign of a negatable entry applied, enumeration as its number).
+        """
+        value = node._print_value
+        if isinstance(value, enum.Enum):
+            value = value.value
+        return value
+
+    def _is_product(self, base, node):
+        """
+        Whether the node holds ``base`` times the factor this multiply was written with.
+
+        :rtype: bool
+        """
+        product = self._entry_number(node)
+        factor = self._num_node._og_value
+        if (
+            base is None
+            or product is None
+            or factor is None
+            or isinstance(base, str)
+            or isinstance(product, str)
+        ):
+            return False
+        return self._is_close(base * factor, product)
+
     def _format_multiply(self, carried=None):
         nodes = list(self.nodes)
         if carried is not None and len(nodes) == 1:
@@ -2195,7 +2226,11 @@ class ShortcutNode(ListNode):
             m = "M"
         else:
             m = "m"
-        self._num_node.value = product / base
+        # only the multiply that was written is written again: a multiply whose values call for another
+        # factor (a degenerate '1m' after edits, say) is written out
+        if not self._is_product(base, nodes[-1]):
+            return None
+        self._num_node.value = self._num_node._og_value
         num_str = self._num_node.format().strip()
         # the factor is written with the precision of the original token: check what it denotes
         try:
